@@ -400,7 +400,60 @@ def rule_z7(ctx, facts):
     ctx.inst("Z7", tr, "index steps down by one", tr.span, idec, "i -= 1 per processed bin" if idec else "the bin index is not decremented by exactly one")
 
 
+def rule_z8(ctx, facts):
+    """generations never overlap: the table an initiator hands to transfer(table, null) belongs to the generation whose size_ctl value
+    its ticket CAS expects -- it was loaded after that size_ctl value was read, or is re-validated against the current table pointer
+    between that read and the CAS.  (A stale table paired with a fresh threshold restarts a finished resize over an empty table.)"""
+    from .analysis import dominates
+    tr = facts.body("map::HashMap::transfer")
+    n = 0
+    for b in facts.bodies:
+        if b.id == tr.id:
+            continue
+        ev = evaluator(b)
+        fl = flow(b)
+        inits = initiator_cas(b, ev, facts)
+        for cas in inits:
+            oke, _ = ok_edge(b, cas)
+            if not oke:
+                continue
+            exp = ev.operand(cas.args[1])
+            sc_loads = [b.call_at(s0[1]) for s0 in (exp.symbols() if exp is not TOP else []) if s0[0] == "call"]
+            sc_loads = [x for x in sc_loads if x is not None and is_std_atomic(x) == "load" and ("map::HashMap", "size_ctl") in receiver_field(b, x, 0)]
+            calls = [c for c in b.calls if c.resolved == tr.id and dominated_by_edge(b, c.point, [oke])]
+            for c in calls:
+                n += 1
+                tl = op_root(c.args[1])
+                tloads = [x for x in fl.call_roots(tl) if x is not None and is_reclaim_atomic(x) == "load" and ("map::HashMap", "table") in receiver_field(b, x, 0)] if tl is not None else []
+                if not sc_loads or not tloads:
+                    ctx.inst("Z8", b, "initiator's table belongs to its size_ctl generation", c.span, False,
+                             "cannot relate the table passed to transfer to a load of the table pointer, or the CAS's expected value to a load of size_ctl")
+                    continue
+                after_sc = all(any(dominates(b, s.point, t.point) and not dominates(b, t.point, s.point) for s in sc_loads) for t in tloads)
+                # or: re-validated between the size_ctl read and the CAS
+                reval = False
+                for blk in range(len(b.blocks)):
+                    cd = cond_of(b, blk)
+                    if cd and cd["kind"] == "ptr_eq":
+                        for mine, other in ((cd["a"], cd["b"]), (cd["b"], cd["a"])):
+                            if mine is None or other is None or not (fl.copies_of(mine) & fl.copies_of(tl) or mine in fl.closure_locals(tl)):
+                                continue
+                            fresh = [x for x in fl.call_roots(other) if x is not None and is_reclaim_atomic(x) == "load" and ("map::HashMap", "table") in receiver_field(b, x, 0)]
+                            if fresh and all(any(dominates(b, s.point, x.point) for s in sc_loads) for x in fresh) and dominated_by_edge(b, cas.point, [(blk, cd["true"])]):
+                                reval = True
+                ok = after_sc or reval
+                ctx.inst("Z8", b, "initiator's table belongs to its size_ctl generation", c.span, ok,
+                         ("table loaded after the size_ctl value the ticket CAS expects" if after_sc else "table re-validated against the current pointer after size_ctl was read") if ok else
+                         "the table handed to transfer(table, null) was loaded at %s before the size_ctl value the CAS expects was read at %s, and is not re-validated "
+                         "in between: a stale table can be paired with the threshold of a finished resize, which restarts that resize over an empty table and "
+                         "publishes it over the live one" % (tloads[0].span, sc_loads[0].span))
+    if n < 2:
+        ctx.fail_closed("Z8: expected the two initiating transfer calls (add_count, try_presize), found %d" % n)
+
+
 def run(ctx, facts):
+    ctx.rule("Z8", "an initiator's table was loaded after (or re-validated after) the size_ctl value its ticket CAS expects", floor=2)
+    rule_z8(ctx, facts)
     ctx.rule("Z7", "stride claiming: CAS(transfer_index, fresh next_index -> next_index - stride | 0); the winner processes exactly [next_bound, next_index)", floor=4)
     rule_z7(ctx, facts)
     ctx.rule("Z1", "single finisher elected by the last sc-1 CAS; publication block gated, ordered and complete", floor=2)
